@@ -55,6 +55,7 @@ type vfTreeRun struct {
 	reuseAfterOpen bool
 	sawReopen      bool
 	grew           bool
+	fileGrew       int // persistent: bulk inserts after which the file is larger than its initial 1 MiB
 	squeezed       int
 	grewOnAlloc    int  // Sets that allocated a page right after the buffer was trimmed (reallocation during the Set)
 	hitMaxKeyDel   bool // a DeleteBelow had to delete the largest key of some leaf
@@ -254,8 +255,12 @@ func (r *vfTreeRun) checkFull(where string) error {
 		used = append(used, k)
 	}
 	sort.Slice(used, func(i, j int) bool { return used[i] < used[j] })
-	for _, k := range used {
-		if err := r.checkKey(k, where); err != nil {
+	stride := 1
+	if len(used) > 4000 {
+		stride = len(used) / 2000 // huge bulk cases: every stride-th key by Get, all of them by IterateKV below
+	}
+	for i := 0; i < len(used); i += stride {
+		if err := r.checkKey(used[i], where); err != nil {
 			return err
 		}
 	}
@@ -438,6 +443,9 @@ func (r *vfTreeRun) apply(op *vfTreeOp) (err error) {
 		}
 		if len(t.data) > minSize && !r.c.Persistent {
 			r.grew = true
+		}
+		if r.c.Persistent && op.N > 5000 && len(t.data) > minSize+pageSize {
+			r.fileGrew++
 		}
 		return r.checkFull("after bulk Set")
 	case "reopen":
@@ -674,6 +682,9 @@ func vfTreeEvidence(ev *vfEvidence, r *vfTreeRun, c *vfTreeCase) {
 	if r.reopens > 0 {
 		cl = append(cl, "reopen")
 	}
+	if r.fileGrew >= 2 {
+		cl = append(cl, "file-outgrown-before-and-after-a-reopen")
+	}
 	if r.reopenWithFree > 0 {
 		cl = append(cl, "reopen-with>=2-free-pages")
 	}
@@ -705,7 +716,24 @@ func vfTreeProperty(ev *vfEvidence, persistent bool) func(t *rapid.T) {
 		}
 		allowBulk := !persistent && c.MaxKeys <= 7 && rapid.IntRange(0, 39).Draw(t, "growth") == 0
 		bulks := 0
+		// persistent trees, rarely: outgrow the 1 MiB file, reopen, outgrow the reopened file, reopen
+		var plan []vfTreeOp
+		planAt := -1
+		if persistent && c.MaxKeys == 7 && rapid.IntRange(0, 99).Draw(t, "filegrowth") >= 96 {
+			per := (minSize / (16 * (c.MaxKeys + 1))) * c.MaxKeys / 2
+			n1 := per + rapid.IntRange(500, 3000).Draw(t, "g1")
+			n2 := 2*per + rapid.IntRange(500, 3000).Draw(t, "g2")
+			plan = []vfTreeOp{{Kind: "bulk", K: 1000, C: 1, N: n1, V: 5}, {Kind: "reopen"},
+				{Kind: "bulk", K: uint64(1000 + n1), C: 1, N: n2, V: 6}, {Kind: "reopen"}, {Kind: "bulk", K: 500000000, C: 3, N: 40, V: 7}}
+			planAt = rapid.IntRange(0, nops).Draw(t, "planat")
+		}
 		r, err := vfRunTreeCase(c, func(r *vfTreeRun) *vfTreeOp {
+			if len(plan) > 0 && len(c.Ops) >= planAt {
+				op := plan[0]
+				plan = plan[1:]
+				c.Ops = append(c.Ops, op)
+				return &c.Ops[len(c.Ops)-1]
+			}
 			if len(c.Ops) >= nops {
 				return nil
 			}
